@@ -477,6 +477,13 @@ def _mirsym():
         stubs=["capnp generated accessors -> record model driven by locustdb-serialization/schemas/api.capnp", "capnp::serialize_packed::{write_message,read_message} -> identity on the record tree", "HashMap<String,V> -> association list"],
         assumptions=["capnpc-generated accessors and the capnp runtime implement the record semantics of vlib/mirsym/capnp_model.py; serialize_packed is lossless"])
 
+    from .specs import datatypes as sdt_
+    add("C12.d/row_column_view", "C12", "mirsym", Q,
+        "the two views of a result describe the same cells: BasicTypeColumn::from_boxed_data(column) (column view) against Data::get_raw(i) for every row (row view), for every result column representation: plain integers of each width, floats, nullable integers / floats (NULL exactly where the null map says), the all-NULL column",
+        ["engine::execution::query_task::BasicTypeColumn::from_boxed_data", "<Vec<T> as Data>::get_raw", "<NullableVec<T> as Data>::get_raw", "<usize as Data>::get_raw", "VecData::wrap_one"],
+        bounds="columns of 0 and 2 rows (quick) / 0,1,3,9 (thorough); Vec<i64>, Vec<u8>, Vec<OrderedFloat<f64>>, NullableVec<i64>, usize (quick) + Vec<u16|u32>, NullableVec<u8|f64> (thorough); values and null-map bytes symbolic; dyn Data get_type / cast_ref_* / len through the tagged-sequence model, get_raw through the real impls",
+        spec=sdt_.RowColumnViewSpec(), stubs=["dyn Data dispatch -> tagged sequences (get_type, cast_ref_*, len); get_raw -> real impl of the receiver's concrete type"])
+
 
 _mirsym()
 
